@@ -107,8 +107,14 @@ func c09Expected(c c09Case, before tm.Tree, effectiveDelete bool) (wantA, wantB 
 		if c.excl == "" {
 			return false
 		}
-		for _, part := range strings.Split(p, "/") {
-			if part == c.excl {
+		pat, dirOnly := strings.TrimSuffix(c.excl, "/"), strings.HasSuffix(c.excl, "/")
+		parts := strings.Split(p, "/")
+		for i, part := range parts {
+			if part != pat {
+				continue
+			}
+			// a rule with a trailing slash names directories only
+			if e := before.Find(strings.Join(parts[:i+1], "/")); !dirOnly || (e != nil && e.Type == tm.Dir) {
 				return true
 			}
 		}
@@ -301,7 +307,10 @@ func c09BuildReal(tier string) core.Source {
 						continue
 					}
 					for _, del := range []bool{true, false} {
-						for _, excl := range []string{"", "b", "z"} {
+						for _, excl := range []string{"", "b", "z", "b/", "z/"} {
+							if strings.HasSuffix(excl, "/") && tier != "thorough" && (top+sub)%2 != 0 {
+								continue
+							}
 							if !del && excl != "" {
 								continue
 							}
